@@ -7,13 +7,13 @@ package main
 // rules work on the syntax of the *generated* program. Nothing is executed.
 
 import (
-	"os"
 	"fmt"
 	"go/ast"
 	"go/constant"
 	"go/parser"
 	"go/token"
 	"go/types"
+	"os"
 	"sort"
 	"strings"
 
@@ -136,6 +136,7 @@ type GFunc struct {
 	Parametric     bool
 	paramKnown     bool
 	exprParametric bool         // parametric through a parser.Expression parameter (a "write this expression" wrapper)
+	retTextual     bool         // returns, as its first result, code text built around a fresh variable name
 	retGenVar      types.Object // the local holding a fresh variable name that the helper returns as its first result (nil: none)
 	nInlined       int          // call sites at which the helper was evaluated in place
 	nOpaque        int          // call sites modelled as a call
@@ -430,17 +431,35 @@ func mergeEnv(base *env, branches []*env) {
 			sort.Strings(choices)
 			base.vals[k] = []Part{{Kind: PChoice, Choices: choices, Src: k.Name()}}
 		} else {
+			// branches leave the variable with different text, at least one of them code text that is known (constants
+			// and generated names): merging loses it
+			for _, v := range vals {
+				known := len(v) > 0
+				for _, p := range v {
+					if p.Kind != PConst && p.Kind != PGenVar {
+						known = false
+					}
+				}
+				if known {
+					mergeLossy++
+				}
+			}
 			base.vals[k] = []Part{{Kind: PData, Src: k.Name(), Obj: k}}
 		}
 	}
 }
 
+// mergeLossy counts merges that replaced known code text by an opaque value (see block: the rest of the block is then
+// evaluated once per branch instead).
+var mergeLossy int
+
 type gemEval struct {
-	retText []Part        // the code text the helper last evaluated in place returned as its first (string) result, when known
-	retCall *ast.CallExpr // … and the call it was evaluated for
-	g     *GEM
-	gf    *GFunc
-	depth int
+	retText   []Part        // the code text the helper last evaluated in place returned as its first (string) result, when known
+	retCall   *ast.CallExpr // … and the call it was evaluated for
+	g         *GEM
+	gf        *GFunc
+	depth     int
+	tailDepth int // how many times the rest of a block is being evaluated per branch (bounded)
 }
 
 func (ev *gemEval) info() *types.Info { return ev.g.info }
@@ -487,10 +506,120 @@ func (ev *gemEval) isErrCheck(s *ast.IfStmt) bool {
 
 func (ev *gemEval) block(list []ast.Stmt, e *env) []Node {
 	var out []Node
-	for _, s := range list {
+	for i, s := range list {
+		// a branching statement whose branches leave a variable with DIFFERENT known code text (output = "f(" + v + ")"
+		// in one arm, v + ".Call" in another): what follows uses that text, so the rest of the block is evaluated once per
+		// branch, in that branch's environment, instead of once with the text forgotten
+		if ev.tailDepth < 2 && i+1 < len(list) {
+			if pre, alt, envs, ok := ev.branchesOf(s, e); ok {
+				rest := list[i+1:]
+				for j := range alt.Branches {
+					if _, isRet := endsInRet(alt.Branches[j]); isRet {
+						continue
+					}
+					ev.tailDepth++
+					alt.Branches[j] = append(alt.Branches[j], ev.block(rest, envs[j])...)
+					ev.tailDepth--
+				}
+				mergeEnvAfter(e, envs, alt.Branches)
+				out = append(out, pre...)
+				return append(out, *alt)
+			}
+		}
 		out = append(out, ev.stmt(s, e)...)
 	}
 	return out
+}
+
+// branchesOf evaluates an if / switch statement branch by branch when — and only when — merging the branches'
+// environments would forget known code text. ok is false otherwise (the statement is then evaluated as usual).
+func (ev *gemEval) branchesOf(s ast.Stmt, e *env) (pre []Node, alt *Alt, envs []*env, ok bool) {
+	var clauses []*ast.CaseClause
+	var ifs *ast.IfStmt
+	switch x := s.(type) {
+	case *ast.IfStmt:
+		if x.Else == nil || ev.isErrCheck(x) {
+			return nil, nil, nil, false
+		}
+		if _, known := ev.constCond(x.Cond, e); known {
+			return nil, nil, nil, false
+		}
+		ifs = x
+	case *ast.SwitchStmt:
+		if x.Init != nil {
+			return nil, nil, nil, false
+		}
+		for _, c := range x.Body.List {
+			clauses = append(clauses, c.(*ast.CaseClause))
+		}
+	default:
+		return nil, nil, nil, false
+	}
+	// a trial evaluation on copies: is the merge lossy?
+	before := mergeLossy
+	trial := e.clone()
+	savedIn, savedOp := ev.snapshotCounters()
+	_ = ev.stmt(s, trial)
+	ev.restoreCounters(savedIn, savedOp)
+	if mergeLossy == before {
+		return nil, nil, nil, false
+	}
+	a := Alt{Pos: s.Pos()}
+	if ifs != nil {
+		if ifs.Init != nil {
+			pre = append(pre, ev.stmt(ifs.Init, e)...)
+		}
+		pre = append(pre, ev.exprNodes(ifs.Cond, e, nil)...)
+		e1 := e.clone()
+		a.Branches = append(a.Branches, ev.block(ifs.Body.List, e1))
+		a.Labels = append(a.Labels, "if "+types.ExprString(ifs.Cond))
+		e2 := e.clone()
+		a.Branches = append(a.Branches, ev.stmt(ifs.Else, e2))
+		a.Labels = append(a.Labels, "else")
+		return pre, &a, []*env{e1, e2}, true
+	}
+	sw := s.(*ast.SwitchStmt)
+	if sw.Tag != nil {
+		pre = append(pre, ev.exprNodes(sw.Tag, e, nil)...)
+	}
+	hasDefault := false
+	for _, cc := range clauses {
+		label := "default"
+		if cc.List == nil {
+			hasDefault = true
+		} else {
+			var ls []string
+			for _, x := range cc.List {
+				ls = append(ls, types.ExprString(x))
+			}
+			label = "case " + strings.Join(ls, ", ")
+		}
+		e1 := e.clone()
+		envs = append(envs, e1)
+		a.Branches = append(a.Branches, ev.block(cc.Body, e1))
+		a.Labels = append(a.Labels, label)
+	}
+	if !hasDefault {
+		a.Branches = append(a.Branches, nil)
+		a.Labels = append(a.Labels, "(no case)")
+		envs = append(envs, e.clone())
+	}
+	return pre, &a, envs, true
+}
+
+// snapshotCounters / restoreCounters: a trial evaluation must not count as call sites of the helpers it meets.
+func (ev *gemEval) snapshotCounters() (map[*GFunc]int, map[*GFunc]int) {
+	in, op := map[*GFunc]int{}, map[*GFunc]int{}
+	for _, gf := range ev.g.order {
+		in[gf], op[gf] = gf.nInlined, gf.nOpaque
+	}
+	return in, op
+}
+
+func (ev *gemEval) restoreCounters(in, op map[*GFunc]int) {
+	for _, gf := range ev.g.order {
+		gf.nInlined, gf.nOpaque = in[gf], op[gf]
+	}
 }
 
 func (ev *gemEval) stmt(s ast.Stmt, e *env) []Node {
@@ -749,6 +878,28 @@ func (ev *gemEval) bind(obj types.Object, rhs ast.Expr, e *env) {
 			e.fvals[obj] = fv
 		}
 	}
+}
+
+// foldTextFunc: a declared function of the package whose parameters are strings and whose body is a single
+// `return <string expression>`, applied to the arguments.
+func (ev *gemEval) foldTextFunc(fn *types.Func, args []ast.Expr, e *env) ([]Part, bool) {
+	info := ev.info()
+	sig, _ := fn.Type().(*types.Signature)
+	if sig == nil || sig.Recv() != nil || !isTextFunc(sig) || ev.depth > 4 {
+		return nil, false
+	}
+	for _, fd := range allFuncDecls(ev.g.pkg) {
+		if info.Defs[fd.Name] != types.Object(fn) || fd.Body == nil || len(fd.Body.List) != 1 {
+			continue
+		}
+		ret, ok := fd.Body.List[0].(*ast.ReturnStmt)
+		if !ok || len(ret.Results) != 1 {
+			return nil, false
+		}
+		lit := &ast.FuncLit{Type: fd.Type, Body: fd.Body}
+		return ev.foldLit(&litVal{lit, newEnv()}, args, e), true
+	}
+	return nil, false
 }
 
 // foldLit: the text a function literal of the form func(…string) string { return <text> } gives for the arguments.
@@ -1362,7 +1513,7 @@ func (ev *gemEval) call(call *ast.CallExpr, e *env, onEmit func(*Emit)) []Node {
 			}
 			// worth evaluating here only if the caller passes code text it knows (a constant, a generated variable name):
 			// an opaque string (an element or attribute name held in a variable) says no more at the call site than inside
-			informative := cg.exprParametric || textFuncArg || cg.retGenVar != nil
+			informative := cg.exprParametric || textFuncArg || cg.retGenVar != nil || cg.retTextual
 			for _, parts := range e2.vals {
 				for _, pt := range parts {
 					if pt.Kind == PConst || pt.Kind == PGenVar {
@@ -1449,10 +1600,23 @@ func (ev *gemEval) fold1(x ast.Expr, e *env) []Part {
 			}
 			return []Part{{Kind: PData, Src: types.ExprString(x)}}
 		}
+		// a package-local function from text to text whose body is `return <text>`: what it returns for these arguments
+		if tf := calleeOf(info, x); tf != nil && tf.Pkg() == ev.g.pkg.Types {
+			if parts, ok := ev.foldTextFunc(tf, x.Args, e); ok {
+				return parts
+			}
+		}
 		// … or held by a field of a descriptor: form.rendered(vn)
 		if se, ok := ast.Unparen(x.Fun).(*ast.SelectorExpr); ok {
 			if rid, ok := ast.Unparen(se.X).(*ast.Ident); ok {
 				if row, ok := e.rows[info.ObjectOf(rid)]; ok {
+					if fid, ok := ast.Unparen(row[se.Sel.Name]).(*ast.Ident); ok && row[se.Sel.Name] != nil {
+						if tf, isFn := info.Uses[fid].(*types.Func); isFn {
+							if parts, ok := ev.foldTextFunc(tf, x.Args, e); ok {
+								return parts
+							}
+						}
+					}
 					if lit, ok := ast.Unparen(row[se.Sel.Name]).(*ast.FuncLit); ok && row[se.Sel.Name] != nil {
 						tmp := types.NewVar(x.Pos(), ev.g.pkg.Types, "·fieldfunc", info.TypeOf(lit))
 						e4 := e.clone()
@@ -1735,6 +1899,31 @@ func walkNodes(nodes []Node, f func(Node)) {
 			walkNodes(x.Body, f)
 		}
 	}
+}
+
+// literalEmitter: the function whose own source holds the emitting call AND the constant containing sub (whether or
+// not the function has skeletons of its own). A helper that emits text it was handed (a type name parameter, a
+// descriptor) is not it: the constant belongs to whoever hands it over.
+func (g *GEM) literalEmitter(sub string) *GFunc {
+	for _, gf := range g.order {
+		if gf.Decl == nil {
+			continue
+		}
+		found := false
+		walkNodes(gf.Tree, func(nd Node) {
+			if e, ok := nd.(Emit); ok && gf.Decl.Pos() <= e.Pos && e.Pos <= gf.Decl.End() {
+				for _, pp := range e.Parts {
+					if pp.Kind == PConst && strings.Contains(pp.Const, sub) {
+						found = true
+					}
+				}
+			}
+		})
+		if found {
+			return gf
+		}
+	}
+	return nil
 }
 
 // nearestEmitter: among the functions that have skeletons of their own, the one whose tree reaches an emission of a
@@ -2609,6 +2798,42 @@ func (g *GEM) returnedGenVar(gf *GFunc) types.Object {
 	return out
 }
 
+// returnsTextAroundGenVar: the emitter's last statement returns, as first (string) result, an expression that mentions
+// a local assigned from the fresh-name function.
+func (g *GEM) returnsTextAroundGenVar(gf *GFunc) bool {
+	res := gf.Decl.Type.Results
+	if res == nil || len(res.List) == 0 || !gf.Emits || len(gf.Decl.Body.List) == 0 {
+		return false
+	}
+	if t := g.info.TypeOf(res.List[0].Type); t == nil || !isStringType(t) {
+		return false
+	}
+	ret, ok := gf.Decl.Body.List[len(gf.Decl.Body.List)-1].(*ast.ReturnStmt)
+	if !ok || len(ret.Results) == 0 {
+		return false
+	}
+	fresh := map[types.Object]bool{}
+	ast.Inspect(gf.Decl.Body, func(n ast.Node) bool {
+		if as, ok := n.(*ast.AssignStmt); ok && len(as.Lhs) == 1 && len(as.Rhs) == 1 {
+			if call, ok := ast.Unparen(as.Rhs[0]).(*ast.CallExpr); ok && g.isFreshNameFunc(calleeOf(g.info, call)) {
+				if id, ok := as.Lhs[0].(*ast.Ident); ok {
+					fresh[g.info.ObjectOf(id)] = true
+				}
+			}
+		}
+		return true
+	})
+	found := false
+	ast.Inspect(ret.Results[0], func(n ast.Node) bool {
+		if id, ok := n.(*ast.Ident); ok && fresh[g.info.ObjectOf(id)] {
+			found = true
+		}
+		return true
+	})
+	_, isIdent := ast.Unparen(ret.Results[0]).(*ast.Ident)
+	return found && !isIdent
+}
+
 // isTextFunc: func(…string) string — a parameter through which a caller says how a piece of code text is built.
 func isTextFunc(t types.Type) bool {
 	sig, ok := t.Underlying().(*types.Signature)
@@ -2636,6 +2861,13 @@ func (g *GEM) parametric(gf *GFunc) bool {
 	if rv := g.returnedGenVar(gf); rv != nil {
 		gf.retGenVar = rv
 		gf.Parametric = true
+		return true
+	}
+	// … or returns code text that it builds around a name it generated ("templ.EscapeString(" + vn + ")"): the caller
+	// writes that text, so the helper is evaluated at the call site as well
+	if g.returnsTextAroundGenVar(gf) {
+		gf.Parametric = true
+		gf.retTextual = true
 		return true
 	}
 	params := map[types.Object]bool{}
